@@ -130,10 +130,11 @@ P['C19']['jobs'] += [dict(name='stream_bytes', tu='harness/w_hostile.cpp', entry
 
 P['C12'] = dict(
     level_text='On the real mqtt_client under virtual time (stub timers fire in deadline order): configured keep-alive and Server Keep Alive are 16-bit symbols, the negotiated K ranges over 1..20 s (and 0). Checked: ping timer armed with exactly K s and read timeout with exactly 1.5 K s after CONNACK; first PINGREQ (alone in its write) no later than K after CONNACK, the next no later than K after the previous; a silent connection is given up exactly 1.5 K after the last byte arrived - after CONNACK or after a PINGRESP - and never earlier, followed by a reconnect; a reconnect with another Server Keep Alive re-arms both timers with the new value; with K = 0 nothing is armed and nothing happens.',
-    level_note='Bounds: K <= 20 s (symbolic), two ping cycles, one reconnect. Real time is replaced by the virtual clock of the stub timers; transport latency is zero. K > 20 only through the arithmetic (timer durations are compared symbolically with K).',
+    level_note='Bounds: K <= 20 s (symbolic), two ping cycles, one reconnect. Real time is replaced by the virtual clock of the stub timers; transport latency is zero. Job keepalive_arithmetic checks both timer durations right after CONNACK for EVERY 16-bit configured / Server Keep Alive value (no time line).',
     assumptions=_pub_assume[:2] + ['timers fire in deadline order (virtual clock); network events take no time'],
     jobs=[dict(name='keepalive', tu='harness/w_ka.cpp', entry='h_keepalive', engine='B', clock=True, defs_quick={'VK_KMAX': 20}, defs_thorough={'VK_KMAX': 60},
-               reach=['no-keepalive', 'first-ping', 'timeout-reconnect', 'second-ping', 'timeout-after-traffic', 'new-keepalive'], samples=10)])
+               reach=['no-keepalive', 'first-ping', 'timeout-reconnect', 'second-ping', 'timeout-after-traffic', 'new-keepalive'], samples=10),
+          dict(name='keepalive_arithmetic', tu='harness/w_ka.cpp', entry='h_ka_arith', engine='B', clock=True, defs_quick={'VK_KMAX': 20}, defs_thorough={'VK_KMAX': 60}, reach=['zero', 'server-keep-alive', 'configured-keep-alive'], samples=6)])
 
 P['C13'] = dict(
     level_text='On the real mqtt_client: every sequence (up to the step bound) of subscriptions answered with a symbolic admissible SUBACK code (granted 0..2 or refused), connection losses followed by a reconnect with Session Present 0 or 1, and inbound messages, with async_receive re-armed continuously. Monitor: the number of session_expired entries delivered equals the number of reconnects with Session Present 0 that were preceded, since the start or the previous report, by a granted subscription; none otherwise; and each report precedes every message the broker sent on the connection that caused it.',
